@@ -234,6 +234,13 @@ pub fn profile_for(prop: &str, variant: u64) -> Profile {
         "C18" => {
             p.name = "config-matrix";
             p.len = (8, 30);
+            // item selection by index over name-sorted keys would legitimately diverge when
+            // block names change with the hash seed: whole-store copies and meld only
+            w[K::Send as usize] = 0;
+            w[K::SendAll as usize] = 8;
+            w[K::Diverge as usize] = 16;
+            w[K::Resolve as usize] = 6;
+            w[K::Snapshot as usize] = 4;
         }
         _ => {}
     }
